@@ -166,11 +166,15 @@ func vfRPCListRun(t testing.TB, sc vfScript) []map[string]any {
 		vfInfra("group context: %v", err)
 	}
 	out := []map[string]any{{"ev": "reset", "id": sc.ID}}
-	for _, kind := range []string{"metadata", "message"} {
+	kinds := []string{"metadata", "message"}
+	attempts := map[string]int{}
+	for ki := 0; ki < len(kinds); ki++ {
+		kind := kinds[ki]
 		call := callMeta
 		if kind == "message" {
 			call = callMsg
 		}
+		mark := len(out)
 		full, err := call(vfListReq{untilNow: true})
 		if err != nil {
 			vfInfra("full %s listing failed: %v", kind, err)
@@ -300,6 +304,24 @@ func vfRPCListRun(t testing.TB, sc vfScript) []map[string]any {
 					}
 				}
 			}
+		}
+		// the log must not have moved under the matrix (a background task of the service appending late): if the
+		// reference listing changed, what was recorded for this kind is discarded and the kind is done again
+		again, err := call(vfListReq{untilNow: true})
+		same := err == nil && len(again) == len(full)
+		for i := range full {
+			if same && !bytes.Equal(full[i], again[i]) {
+				same = false
+			}
+		}
+		if !same {
+			out = out[:mark]
+			attempts[kind]++
+			if attempts[kind] > 3 {
+				vfInfra("the %s log keeps growing under the listing matrix", kind)
+			}
+			time.Sleep(2 * time.Second)
+			ki--
 		}
 	}
 	return out
